@@ -2,13 +2,15 @@
 # usage: check.sh <ID> <quick|thorough> [--replay FILE]
 # exit 0 = property held on everything explored; 1 = VIOLATION line printed; 2 = inconclusive (build failure, watchdog)
 ID="$1"; TIER="${2:-${VERIF_TIER:-quick}}"; shift; shift
+ROOT="$(cd "$(dirname "$0")" && pwd)"
+export VERIF_ROOT="$ROOT"
 export CARGO_NET_OFFLINE=true
-cd /verif/harness || exit 2
-if ! cargo build --release --offline >/verif/.build.log 2>&1; then
-  echo "INCONCLUSIVE: harness does not build against /repo (see /verif/.build.log)"; tail -20 /verif/.build.log; exit 2
+cd "$ROOT/harness" || exit 2
+if ! cargo build --release --offline >"$ROOT/.build.log" 2>&1; then
+  echo "INCONCLUSIVE: harness does not build against /repo (see $ROOT/.build.log)"; tail -20 "$ROOT/.build.log"; exit 2
 fi
 if [ "$TIER" = thorough ]; then
   # coverage-guided supplement; failure to build it only skips that part
-  (cd /verif/fuzz && cp /verif/harness/Cargo.lock . 2>/dev/null; cargo +nightly fuzz build --fuzz-dir /verif/fuzz -s none history >/verif/.fuzzbuild.log 2>&1) || echo "note: fuzz target did not build (see /verif/.fuzzbuild.log); fuzz part will be skipped"
+  (cd "$ROOT/fuzz" && cp "$ROOT/harness/Cargo.lock" . 2>/dev/null; cargo +nightly fuzz build --fuzz-dir "$ROOT/fuzz" -s none history >"$ROOT/.fuzzbuild.log" 2>&1) || echo "note: fuzz target did not build (see $ROOT/.fuzzbuild.log); fuzz part will be skipped"
 fi
 exec ./target/release/mverif check "$ID" --tier "$TIER" --seed "${VERIF_SEED:-20260925}" "$@"
